@@ -9,8 +9,10 @@ import (
 )
 
 func main() {
-	p, h := os.Args[1], os.Args[2]
+	p := os.Args[1]
 	a, b := coregex.MustCompile(p), regexp.MustCompile(p)
-	fmt.Println("coregex", a.MatchString(h), a.FindStringIndex(h), a.FindAllStringIndex(h, -1))
-	fmt.Println("stdlib ", b.MatchString(h), b.FindStringIndex(h), b.FindAllStringIndex(h, -1))
+	for _, h := range os.Args[2:] {
+		fmt.Println("coregex", a.MatchString(h), a.FindStringSubmatchIndex(h), a.FindAllStringIndex(h, -1))
+		fmt.Println("stdlib ", b.MatchString(h), b.FindStringSubmatchIndex(h), b.FindAllStringIndex(h, -1))
+	}
 }
